@@ -15,7 +15,7 @@ from ..astutil import calls_in, dotted, enclosing_stmt, src, walk_local
 from ..loader import AnalysisError
 from ..terms import Evaluator, alts, contains, find, show, strip_sites, walk
 from . import c10
-from .common import evaluate, func_label, loc
+from .common import stream_producers, evaluate, func_label, loc
 
 EXPLANATION = (
     'Locality preconditions of content-defined chunking, decided structurally: (C++, clang AST) next_cut/key write no object state and read only their buffer '
@@ -82,7 +82,7 @@ def _padding_expr_ok(p, expr):
 def r2_padding(ctx, docs, stride):
     corpus = ctx.corpus
     snap = corpus.func('repository', 'Repository.snapshot')
-    producers = [p for p in snap.nested.values() if p.is_generator and any(isinstance(n, ast.Call) and isinstance(n.func, ast.Attribute) and n.func.attr == 'read' for n in walk_local(p.node))]
+    producers = stream_producers(snap)
     ctx.floor('C11.R2', 'stream producer', len(producers))
     p = producers[0]
     ctx.analysed(p)
@@ -209,6 +209,11 @@ def run(ctx):
     r1_inputs(ctx, docs)
     r2_padding(ctx, docs, stride)
     r3_key(ctx, docs)
+    from ..report import Relabel as _RL
+    from .c06 import r5_key_material
+
+    # every holder of a key of one family chunks with the same key: a shared key copies the private section unchanged
+    r5_key_material(_RL(ctx, 'C11.R3'))
     c10.r3_stateless(_Relabel(ctx, 'C11.R1'))
     c10.r4_prefix(_Relabel(ctx, 'C11.R1'))
 
